@@ -215,7 +215,7 @@ theorem cwaZero_inv {fuel : Nat} (hswf : ISwf (stoppedWaitFor fuel)) (hsn : ISn 
   | some list =>
     simp only [cancelWaitingSources_eq_purge]
     have hg : Tbl.getD s.waitFor (w, 0) = list := Tbl.find_eq_getD_of_some hf
-    have hmir : Mirror (Tbl.purge s.alive s.notify w 0 list []).1 (Tbl.removeKey s.waitFor (w, 0)) := by
+    have hmir : TblMirror (Tbl.purge s.alive s.notify w 0 list []).1 (Tbl.removeKey s.waitFor (w, 0)) := by
       have := h.tab.mir.symm.purge_removeKey s.alive w 0 [] (by rw [hg]; exact fun l hl => h.sources_alive w 0 l (by rw [hg]; exact hl))
       rw [hg] at this
       exact this.symm
@@ -250,7 +250,7 @@ theorem cwaRest_inv {fuel : Nat} (hswf : ISwf (stoppedWaitFor fuel)) (hsn : ISn 
     have ho : Tbl.hasOwner s.waitFor w = false := by simpa using hno
     exact Ok.pure ⟨h.dropC ho, ho⟩
   · simp only [cwaSources_frame]
-    have hmir : Mirror (Tbl.multiPurge s.alive s.notify w (Tbl.keysOf s.waitFor w) []).1 (Tbl.removeOwner s.waitFor w) :=
+    have hmir : TblMirror (Tbl.multiPurge s.alive s.notify w (Tbl.keysOf s.waitFor w) []).1 (Tbl.removeOwner s.waitFor w) :=
       (h.tab.mir.symm.multiPurge_removeOwner h.n.wfW s.alive w [] (fun n l hl => h.sources_alive w n l hl)).symm
     have h1 : Inv (w :: C) (w :: W) none ({ ({ s with notify := (Tbl.multiPurge s.alive s.notify w (Tbl.keysOf s.waitFor w) []).1 } : State) with
         waitFor := Tbl.removeOwner s.waitFor w }) := by
